@@ -51,10 +51,10 @@ SPEC = dict(
                  'g++ 12 ASan/UBSan/LSan and valgrind memcheck report what they claim to report; CPU budget per hostile case 20 CPU-seconds'],
     legs=[
         Leg('regress', 'h_filter', 'asan', opts={'mode': 'regress'}, quick=1, thorough=1, workers=1, leaks=True, min_cases=10),
-        Leg('semantics', 'h_filter', 'asan', opts={'mode': 'semantics'}, quick=100000 * _S, thorough=6000000, workers=16, leaks=True),
-        Leg('hostile', 'h_filter', 'asan', opts={'mode': 'hostile'}, quick=50000 * _S, thorough=3000000, workers=16, leaks=True, cpu_budget=20.0),
-        Leg('memcheck', 'h_filter', 'plain', opts={'mode': 'semantics'}, quick=2000 * _S, thorough=120000, workers=16, valgrind=True),
-        Leg('memcheck_hostile', 'h_filter', 'plain', opts={'mode': 'hostile'}, quick=800 * _S, thorough=48000, workers=16, valgrind=True, cpu_budget=20.0),
+        Leg('semantics', 'h_filter', 'asan', opts={'mode': 'semantics'}, quick=100000 * _S, thorough=2500000, workers=16, leaks=True),
+        Leg('hostile', 'h_filter', 'asan', opts={'mode': 'hostile'}, quick=50000 * _S, thorough=1250000, workers=16, leaks=True, cpu_budget=20.0),
+        Leg('memcheck', 'h_filter', 'plain', opts={'mode': 'semantics'}, quick=2000 * _S, thorough=40000, workers=16, valgrind=True),
+        Leg('memcheck_hostile', 'h_filter', 'plain', opts={'mode': 'hostile'}, quick=800 * _S, thorough=16000, workers=16, valgrind=True, cpu_budget=20.0),
     ],
     min_stats={'regress': {'regress_checks': 10000, 'regress_rows': 50},
                'semantics': _sem_min,
